@@ -179,7 +179,7 @@ def mk_fix_trailing(args):
 
 THOROUGH = os.environ.get("VERIF_TIER", "quick") == "thorough"
 T1MAX = 1                                  # second/third argument types are derived from the first
-RMAX = NRET if THOROUGH else 1             # quick: the return shape is derived from the other choices
+RMAX = 4 if THOROUGH else 1                # number of enumerated return-shape offsets (the shape itself = offset*3 + derived)
 NSMAX = 3 if THOROUGH else 1               # quick: the namespace depth is derived from the other choices
 VMAX = 2 if THOROUGH else 1
 
@@ -189,8 +189,9 @@ def _callable(role, n, k, t0, t1, r, flavour, nsdepth, exact=False):
     with concrete():
         t1e = (t0 * 4 + 5 + t1) % NPOOL
         t2e = (t0 * 7 + 2 + t1 * 3) % NPOOL
+        if not exact:
+            r = (r * 3 + t0 + n + k) % NRET
         if not THOROUGH and not exact:
-            r = (r + t0 + n + k) % NRET
             nsdepth = (nsdepth + t0 + n) % 3
         ok = check_callable(ROLES[role], n, k, t0, t1e, t2e, r, flavour, nsdepth)
     reached({"role": ROLES[role], "n": n, "k": k, "t0": t0, "ret": r, "flavour": flavour, "nsdepth": nsdepth} if not ok or (t0 == 3 and n == 2) else None)
@@ -236,7 +237,7 @@ def c04_static(n: int, k: int, t0: int, t1: int, r: int, flavour: int) -> bool:
 def c04_function(n: int, k: int, t0: int, t1: int, r: int, flavour: int, nsdepth: int) -> bool:
     """
     Free functions: module-level def calling ns::name (explicit template arguments for instantiations).
-    pre: 0 <= n <= 3 and 0 <= k <= n and 0 <= t0 < NPOOL and 0 <= t1 < T1MAX and 0 <= r < RMAX and 0 <= flavour <= 2 and 0 <= nsdepth < NSMAX
+    pre: 0 <= n <= 3 and 0 <= k <= n and 0 <= t0 < NPOOL and 0 <= t1 < T1MAX and 0 <= r < (2 if THOROUGH else 1) and 0 <= flavour <= 2 and 0 <= nsdepth < NSMAX
     post: _
     """
     return _callable(4, n, k, t0, t1, r, flavour, nsdepth)
